@@ -617,6 +617,19 @@ func (s *Sim) CaseHits() map[[2]int]int { return s.caseHits }
 // SiteHits returns how often each site was resumed from.
 func (s *Sim) SiteHits() map[int]int { return s.siteHits }
 
+// LiveSUT returns the number of goroutines started by instrumented code that have not finished.
+func (s *Sim) LiveSUT() int {
+	s.mu.Lock()
+	defer s.mu.Unlock()
+	n := 0
+	for _, t := range s.tasks {
+		if t.SUT && !t.adopted && t.st != stDone {
+			n++
+		}
+	}
+	return n
+}
+
 // TaskCount returns the number of tasks ever created.
 func (s *Sim) TaskCount() int { return len(s.tasks) }
 
